@@ -127,7 +127,12 @@ pub(super) fn execute_aggregate<'a, S: GraphSnapshot + 'a>(
                         if saw_float {
                             Value::Float(float_sum)
                         } else {
-                            Value::Int(int_sum as i64)
+                            // Same overflow rule as `+`: exact Int when it fits, Float otherwise
+                            // (never a silently wrapped integer).
+                            match i64::try_from(int_sum) {
+                                Ok(sum) => Value::Int(sum),
+                                Err(_) => Value::Float(int_sum as f64),
+                            }
                         }
                     }
                     AggregateFunction::SumDistinct(expr) => {
@@ -166,24 +171,37 @@ pub(super) fn execute_aggregate<'a, S: GraphSnapshot + 'a>(
                         if saw_float {
                             Value::Float(float_sum)
                         } else {
-                            Value::Int(int_sum as i64)
+                            // Same overflow rule as `+`: exact Int when it fits, Float otherwise
+                            // (never a silently wrapped integer).
+                            match i64::try_from(int_sum) {
+                                Ok(sum) => Value::Int(sum),
+                                Err(_) => Value::Float(int_sum as f64),
+                            }
                         }
                     }
                     AggregateFunction::Avg(expr) => {
-                        let values: Vec<f64> = rows
-                            .iter()
-                            .filter_map(|r| {
-                                match evaluate_expression_value(expr, r, snapshot, params) {
-                                    Value::Float(f) => Some(f),
-                                    Value::Int(i) => Some(i as f64),
-                                    _ => None,
+                        // Integers are summed exactly before the division (summing them as
+                        // f64 cancels catastrophically for values near the i64 limits).
+                        let mut count = 0usize;
+                        let mut int_sum: i128 = 0;
+                        let mut float_sum: f64 = 0.0;
+                        for r in &rows {
+                            match evaluate_expression_value(expr, r, snapshot, params) {
+                                Value::Float(f) => {
+                                    float_sum += f;
+                                    count += 1;
                                 }
-                            })
-                            .collect();
-                        if values.is_empty() {
+                                Value::Int(i) => {
+                                    int_sum += i as i128;
+                                    count += 1;
+                                }
+                                _ => {}
+                            }
+                        }
+                        if count == 0 {
                             Value::Null
                         } else {
-                            Value::Float(values.iter().sum::<f64>() / values.len() as f64)
+                            Value::Float((int_sum as f64 + float_sum) / count as f64)
                         }
                     }
                     AggregateFunction::AvgDistinct(expr) => {
